@@ -262,6 +262,13 @@ def cases():
         argv_run(cli.main, ["whip", "-v", "nope", "-o", "res/grid", "-y", P])
     add("whip/unknown-field", {"plt00010": "plt00010"}, whip_unknown, [os.path.join("res/grid")])
 
+    # an unknown field with missing fields NOT allowed: whatever falsy value says so (False, 0, numpy's False, a numpy zero)
+    for nm, val in (("False", False), ("zero", 0), ("np-false", np.False_), ("np-zero", np.int64(0))):
+        def colander_strict(work, val=val):
+            from amr_kitchen.colander import Colander
+            Colander(plotfile=P, output="res/strained", variables=["w", "zz", "u"], allow_missing=val).strain()
+        add("colander/unknown-field/not-allowed-" + nm, {"plt00010": "plt00010"}, colander_strict, [os.path.join("res/strained")])
+
     def colander_missing_binary(work):
         from amr_kitchen.colander import Colander
         l1 = os.path.join(work, P, "Level_1")
